@@ -154,6 +154,9 @@ func (E *Engine) AddContractFile(cf *ContractFile, pkgPath string) {
 // isFullStdName: names such as strings.HasPrefix or (*bufio.Reader).ReadByte
 // written in a package contract file refer to external functions.
 func isFullStdName(n string) bool {
+	if strings.HasPrefix(n, "field ") {
+		return false
+	}
 	s := strings.TrimPrefix(strings.TrimPrefix(n, "("), "*")
 	i := strings.Index(s, ".")
 	if i <= 0 {
